@@ -198,7 +198,11 @@ OpTok == [
   ddt  |-> <<"fn", 20, 1>>,  int  |-> <<"fn", 21, 1>>, sumk |-> <<"fn", 22, 1>>, prodk |-> <<"fn", 23, 1>>,
   fact |-> <<"fn", 24, 1>>,  isum |-> <<"fn", 25, 1>>, iprod |-> <<"fn", 26, 1>>,
   \* dense matrices of shape 2x3, 3x2, 1x3, 3x1 (elements in reading order)
-  mat23 |-> <<"fn", 27, 6>>, mat32 |-> <<"fn", 28, 6>>, mat13 |-> <<"fn", 29, 3>>, mat31 |-> <<"fn", 30, 3>>
+  mat23 |-> <<"fn", 27, 6>>, mat32 |-> <<"fn", 28, 6>>, mat13 |-> <<"fn", 29, 3>>, mat31 |-> <<"fn", 30, 3>>,
+  \* declared (undefined) functions whose display names coincide with names of well-known functions:
+  \* beta(x), gamma(x), gamma(x, y), Abs(x), log(x), log(x, y), zeta(x, y), Max(x, y)
+  dbeta |-> <<"fn", 31, 1>>, dgam1 |-> <<"fn", 32, 1>>, dgam2 |-> <<"fn", 33, 2>>, dabs |-> <<"fn", 34, 1>>,
+  dlog1 |-> <<"fn", 35, 1>>, dlog2 |-> <<"fn", 36, 2>>, dzeta |-> <<"fn", 37, 2>>, dmax |-> <<"fn", 38, 2>>
 ]
 Tok(name) == IF name \in DOMAIN LeafTok THEN LeafTok[name] ELSE OpTok[name]
 ASSUME LeafNames \subseteq DOMAIN LeafTok /\ OpNames \subseteq DOMAIN OpTok
@@ -235,7 +239,8 @@ PowI == \E o \in OpNames \cap {"sq", "cube", "inv", "isq"} : Apply(o)
 PowR == \E o \in OpNames \cap {"cbrt", "p32", "pm32", "pm12"} : Apply(o)
 Sqrt == "sqrt" \in OpNames /\ Apply("sqrt")
 PowG == "pow" \in OpNames /\ Apply("pow")
-Func == \E o \in OpNames \cap {"exp", "sin", "log", "f2", "g1"} : Apply(o)
+Func == \E o \in OpNames \cap {"exp", "sin", "log", "f2", "g1",
+                              "dbeta", "dgam1", "dgam2", "dabs", "dlog1", "dlog2", "dzeta", "dmax"} : Apply(o)
 Oper == \E o \in OpNames \cap {"ddt", "int", "sumk", "prodk", "fact", "isum", "iprod"} : Apply(o)
 Matr == \E o \in OpNames \cap {"mat23", "mat32", "mat13", "mat31"} : Apply(o)
 
